@@ -102,6 +102,12 @@ class Sut:
                 ret = self.st.save(obj, patch=patch)
             elif op == "patch":
                 ret = obj.patch(patch)
+            elif op == "save_new":
+                # a repeater the storage does not hold, made with the storage's own factory, handed to save
+                fresh = self.st.create_repeater(address_in=addr)
+                got = self.st.save(fresh, patch=patch)
+                self.sync()
+                ret = None if (got is fresh and not any(got is o for o in self.objs)) else got
             elif op == "match_attr":
                 ret = self.st.match_attr(a["key"], dec(a["val"]))
             elif op == "match_ip":
@@ -177,9 +183,11 @@ def random_history(rng, n):
         else:
             i = rng.randrange(nrec) + 1
             op = rng.choice(["save", "patch", "match_attr", "match_ip", "match_uuid", "attr_read",
-                             "attr_write", "delete_attr"])
+                             "attr_write", "delete_attr", "save_new"])
             if op in ("save", "patch"):
                 a = act(op, id=i, patch=rpatch())
+            elif op == "save_new":
+                a = act(op, addr=rng.choice(addrs), patch=rpatch())
             elif op == "match_attr":
                 if rng.random() < 0.5:
                     a = act(op, key="address_in", val=rng.choice(addrs))
@@ -241,7 +249,7 @@ def run(ctx):
     edges = core.parse_printed_json(res, tag="EDGE")
     if len(edges) < 100:
         raise core.MachineryError(f"edge dump too small: {len(edges)}")
-    core.edge_label_coverage(ctx, edges, lambda e: e["act"]["op"] + ("/create" if e["act"]["op"] == "match_incoming" and e["act"]["auto"] else ""), "storage", 10)
+    core.edge_label_coverage(ctx, edges, lambda e: e["act"]["op"] + ("/create" if e["act"]["op"] == "match_incoming" and e["act"]["auto"] else ""), "storage", 11)
     ctx.note("edges", len(edges))
     ctx.exhaustive = True
     # ---- spec -> code: replay every edge (streamed in chunks: a trace carries the whole projected storage after every step)
